@@ -8,6 +8,9 @@ import sys
 def main():
     spec = json.load(sys.stdin)
     os.chdir(spec['dir'])
+    if spec.get('cpus') and hasattr(os, 'sched_setaffinity'):
+        # a runner confined to few processors (taskset, a cpuset, a small container): -j N still means N subprocesses
+        os.sched_setaffinity(0, set(sorted(os.sched_getaffinity(0))[:spec['cpus']]))
     real_stdout = sys.stdout
     class FalsyStream(io.TextIOWrapper):
         """A stream object that is falsy (e.g. a recorder that reports its length): still a perfectly good sys.stdout."""
